@@ -38,6 +38,17 @@ def _same(a, b, tol):
     return zoo.rows_equal(ra, rb, tol)
 
 
+def _no_ngram_survives(c):
+    import collections
+
+    p = c["params"]
+    cnt = collections.Counter(t for d in c["train"] for t in d)
+    mo = p.get("min_occurrences")
+    keep = {t for t, k in cnt.items() if mo is None or k >= mo}
+    lens = [len(d) if p.get("mask_string") else sum(1 for t in d if t in keep) for d in c["train"]]
+    return max(lens + [0]) < p.get("ngram_size", 1)
+
+
 def check_case(ctx, c):
     import vectorizers as V
 
@@ -75,6 +86,8 @@ def check_case(ctx, c):
         viol("fit-raises/ValueError", "fit raised ValueError: %s" % msg[:200])
         return
     except Exception as e:
+        if name == "Ngram" and _no_ngram_survives(c):
+            return ctx.skip("rejected input: no n-gram survives the token stage")
         expl = "/explicit-reference" if c.get("explicit_reference") else ""
         viol("fit-raises/%s%s" % (type(e).__name__, expl), "fit raised %s: %s" % (type(e).__name__, str(e)[:200]))
         return
